@@ -9,6 +9,18 @@ CLAIMED = {
     "C08": ("effect + provenance analysis over rustc MIR (mutated-operand origin, observer purity)",
             "Static effect/provenance analysis of every call site reachable from OverlayFS (sync and async): each path operand in a mutated position must originate from layers[0]; observers must reach no mutating call. Necessary and, under the stated assumption, sufficient for the property, for all histories/inputs/stackings at once.",
             "Assumes a layer's own observing methods do not mutate that layer (checked as a note for in-crate backends, assumed for foreign FileSystem impls); trusts rustc's MIR and callee resolution.", "DESIGN.md §4 C08"),
+    "C12": ("typestate analysis (labelled/unlabelled VfsError) + who-may-construct + field-footprint rules over rustc MIR; compile-fail witnesses (thorough)",
+            "Every error that a path-layer function can return is traced to its sources over the MIR; backend/std results and fresh constructions must pass through with_path with a caller-namespace string. error.rs: VfsError literal only in From<VfsErrorKind> (NotFound normalisation), with_* helpers never touch `kind`, optional trait defaults build NotSupported. Covers all failing calls/states/stackings because the rule is over code paths, not executions.",
+            "Decides labelling and the classification constructs, not message texts; trusts rustc MIR and the closure-inlining of map_err closures; adapters may return inner paths by design (the outer path layer relabels).", "DESIGN.md §4 C12"),
+    "C13": ("panic-site inventory over rustc MIR with machine-checked discharge idioms and reviewed records; clippy cross-reference (thorough)",
+            "All Assert terminators and all calls into a frozen table of panicking std callees in every function of the crate (sync, embedded, async) must be proven unreachable by a guard/origin idiom or a reviewed record whose premises are re-checked each run. Proof-style necessary-and-sufficient for the inventoried panic classes; errs towards alarm.",
+            "Not covered: allocation failure, stack overflow, panics inside std/dependencies on valid arguments, async 'resumed after completion' (covered structurally by C15 R15.4). Assumes the FileSystem path contract and std/rust-embed contracts listed in the evidence.", "DESIGN.md §4 C13"),
+    "C16": ("lock-region analysis over rustc MIR (guard live ranges, lock events per path, re-entrancy, publication re-validation)",
+            "Sufficient structural conditions for per-call linearizability of MemoryFS under every schedule: one critical section per operation, no lock event under a live guard (incl. callees/closures), no panic under the lock, writer publication re-validates. Violations of the sufficient condition are triaged (known findings / reviewed exceptions).",
+            "Sufficient, not necessary: a flagged method is a finding only after reading (R16.4 exceptions). Assumes std RwLock semantics and that all map accesses go through the guard (type system).", "DESIGN.md §4 C16"),
+    "C20": ("Result-consumer classification + Err-edge reachability over rustc MIR with a frozen escape table",
+            "In adapters and the path layer (sync+async) the Err of every Result<_, VfsError|io::Error> may only propagate, be preserved, or be matched with all non-escape arms leading to error returns; discarding combinators, unused results and Err edges reaching a success return are violations unless the error stems from pure path computation or a listed escape (NotSupported fast paths, DirectoryExists in create_dir_all, FileNotFound in overlay exists). Covers every fault position k at once.",
+            "Does not decide whether an alternative route reproduces the full effect, nor partial effects left behind by a failed composite; panicking consumers are C13's concern.", "DESIGN.md §4 C20"),
 }
 NA_REASON = "check not implemented yet (build in progress); design in DESIGN.md"
 
